@@ -926,7 +926,7 @@ def run(ctx):
                         ctx.run_case(judge, c)
         ctx.exhaustive['length residues 0..7 at every pool magnitude x {4 classes, Array}'] = True
         # 2. random cases
-        nrand = ctx.scale(9000, 320000)
+        nrand = ctx.scale(150000, 1600000)
         for j in range(nrand):
             r = ctx.rng.random()
             if r < 0.30:
@@ -938,7 +938,7 @@ def run(ctx):
             else:
                 c = gen_arrfile(ctx)
             ctx.run_case(judge, c)
-            if j % 499 == 0:
+            if j % 2999 == 0:
                 ctx.sample(short(c))
         # 3. the chunk boundary
         for shard, c in chunk_cases(ctx):
